@@ -30,6 +30,7 @@ package redisemu
 //@ ensures 0 <= n && n <= len(b)
 
 //@ func clientCxn.onWaitForCommand
+//@ guards on
 //@ prop C01
 //@ safetyprop none
 //@ requires cc != nil && cc.cs != nil
@@ -55,6 +56,7 @@ package redisemu
 //@ modifies heap
 
 //@ func clientCxn.onDispatchCommand
+//@ guards on
 //@ prop C01
 //@ safetyprop none
 //@ mode int
